@@ -543,6 +543,72 @@ def check_copy_selects_copy(ctx, unit, rule="W.copy-selects-copy"):
         raise AnalysisBroken("anchor vanished: copy constructions in wit::probe_copy_select* (found %d)" % n_)
 
 
+def check_brace_assign(ctx, unit, rule="W.brace-assign-empties"):
+    """`o = {}` on an optional of a scalar: the call clang resolves must be an assignment from optional itself (the braces
+    build an empty optional).  A value-assignment template `operator=(U &&)` with U defaulted to T is viable for the braces
+    unless scalars are excluded (as std::optional does) and leaves the optional ENGAGED with T{}."""
+    ctx.rule(rule, "`o = {}` on optional<int>, optional<bool> and optional<T *> resolves to the copy or move assignment of optional "
+             "(the optional is emptied), not to a value-assignment template", 3)
+    fs = [f for f in unit.functions if f.name == "probe_brace_assign"]
+    if not fs:
+        raise AnalysisBroken("anchor vanished: wit::probe_brace_assign in the holders unit")
+    f = fs[0]
+    k = 0
+    for n in sorted([x for x in f.events() if x.kind == "CXXOperatorCallExpr" and x.callee and x.callee.get("op") == "="
+                     and "optional" in (x.callee.get("cls") or "")], key=lambda x: x.loc):
+        k += 1
+        cal = n.callee
+        ok = bool(cal.get("copyassign") or cal.get("moveassign"))
+        ctx.inst(rule, "%s = {} #%d" % (cal.get("clsqn", cal.get("cls")), k), ok, n.loc,
+                 "resolves to operator=(%s)%s" % (", ".join(cal.get("ptypes", [])), "" if ok else
+                                                  ": a value assignment -- the optional ends up engaged with a value-initialised T"), f)
+    if k < 3:
+        raise AnalysisBroken("anchor vanished: brace assignments in wit::probe_brace_assign (found %d)" % k)
+
+
+def check_emplace_direct_init(ctx, unit, classes, rule="W.emplace-direct-init"):
+    """The in-place constructions that forward their arguments (optional(U &&), emplace, manual_box::initialize, eternal's
+    constructor, variant::emplace) build T(args...) -- direct-initialisation, as std::optional / std::variant prescribe -- and
+    not T{args...}, which prefers an initializer_list constructor of T and gives initialize(4, 9) two elements instead of four."""
+    ctx.rule(rule, "a placement-new that forwards reference-collapsing parameters into the held object uses T(args...), not "
+             "T{args...} (list-initialisation selects an initializer_list constructor where the standard holders do not)", len(classes))
+    from .ir import std_unwrap
+    seen_cls = set()
+    for f in unit.functions:
+        cls = f.owner_cls or ""
+        if cls not in classes:
+            continue
+        coll = {p["d"] for p in f.params() if p.get("collapsing")}
+        if not coll:
+            continue
+        k = 0
+        bm = f.bind_map()
+
+        def fwd(y, depth=0, coll=coll, bm=bm, f=f):
+            """y mentions a reference-collapsing parameter of f, directly or as the argument a folded helper's parameter is bound to"""
+            if y.kind != "DeclRefExpr" or depth > 8:
+                return False
+            if y.d.get("d") in coll:
+                return True
+            if y.d.get("d") in bm:
+                return any(fwd(z, depth + 1) for z in f.node(bm[y.d["d"]]).walk())
+            return False
+        for n in sorted([x for x in f.all_nodes() if x.kind == "CXXNewExpr" and x.get("placement")], key=lambda x: x.loc):
+            fw = [x for x in n.walk() if fwd(x)]
+            if not fw:
+                continue
+            k += 1
+            lst = [x for x in n.walk() if (x.kind == "CXXConstructExpr" and x.get("listinit")) or x.kind == "InitListExpr"]
+            lst = [x for x in lst if any(fwd(y) for y in x.walk())]
+            seen_cls.add(cls)
+            ctx.inst(rule, "%s #%d" % (f.sig, k), not lst, n.loc,
+                     "the forwarded arguments are wrapped in braces: T{args...} prefers an initializer_list constructor" if lst else
+                     "direct-initialisation T(args...)", f)
+    for cls in classes:
+        if cls not in seen_cls:
+            raise AnalysisBroken("anchor vanished: forwarding construction in %s" % cls)
+
+
 def check_returns(ctx, unit, fns, rule="R.returns"):
     """A non-void function must not flow off its end."""
     ctx.rule(rule, "every non-void member returns a value on every path that reaches the end of the function", 10)
